@@ -175,25 +175,23 @@ fn mk_vals<V: Val>(rng: &mut Rng, n: usize, entry: &str) -> Vec<V> {
     }
 }
 
-/// small random automaton: build, table, searches (slice and iterator entry), optional round trip
-fn small_typed<V: Val>(t: &mut Tracer, rng: &mut Rng, cx: &Ctx, var: Var, kind: Kind) {
-    let alpha = pick_alphabet(rng, var);
-    let np = rng.range(1, 6);
-    let pats = gen_patterns(rng, &alpha.pat, np, 4);
-    let entry = if rng.chance(1, 2) { "new" } else { "with_values" };
-    let via_builder = kind != Kind::Std || rng.chance(3, 4);
-    let nfb = if via_builder { *rng.pick(&[1u32, 1, 2, 3, 16, 64]) } else { 16 };
-    let spec = BuildSpec { var, kind, entry, via_builder, nfb, pats };
-    let vals: Vec<V> = mk_vals(rng, spec.pats.len(), entry);
-    let (h, pma) = ev_build(t, &spec, &vals);
-    let Some(pma) = pma else { return };
-    ev_table(t, h, &pma, true, &alpha.extra);
-    let methods = methods_for(cx.prop, kind);
-    let nh = rng.range(3, 6);
-    let hays: Vec<Rc<Vec<u8>>> = (0..nh)
-        .map(|_| Rc::new(gen_haystack(rng, var, &alpha, 14, &spec.pats)))
-        .collect();
-    for hay in &hays {
+/// build + table + searches of one automaton (slice entry first: it is the reference run for the
+/// iterator entry point); returns the handle and the automaton
+fn run_block<V: Val>(
+    t: &mut Tracer,
+    rng: &mut Rng,
+    cx: &Ctx,
+    spec: &BuildSpec,
+    vals: &[V],
+    hays: &[Rc<Vec<u8>>],
+    extra: &[u32],
+    with_nexts: bool,
+) -> Option<(u32, Pma<V>)> {
+    let (h, pma) = ev_build(t, spec, vals);
+    let pma = pma?;
+    ev_table(t, h, &pma, with_nexts, extra);
+    let methods = methods_for(cx.prop, spec.kind);
+    for hay in hays {
         for m in &methods {
             ev_search(t, h, &pma, m, "slice", hay, 0);
             if *m != "lm" && (cx.prop == "C12" || rng.chance(1, 2)) {
@@ -201,6 +199,46 @@ fn small_typed<V: Val>(t: &mut Tracer, rng: &mut Rng, cx: &Ctx, var: Var, kind: 
             }
         }
     }
+    Some((h, pma))
+}
+
+/// small random automaton: build, table, searches (slice and iterator entry), optional round trip.
+/// For the relational properties the reference automaton comes first: the byte-wise twin built
+/// from the UTF-8 bytes of the same patterns (C08), the default num_free_blocks (C11).
+fn small_typed<V: Val>(t: &mut Tracer, rng: &mut Rng, cx: &Ctx, var: Var, kind: Kind) {
+    let alpha = pick_alphabet(rng, var);
+    let np = rng.range(1, 6);
+    let pats = gen_patterns(rng, &alpha.pat, np, 4);
+    let entry = if rng.chance(1, 2) { "new" } else { "with_values" };
+    let via_builder = kind != Kind::Std || cx.prop == "C11" || rng.chance(3, 4);
+    let nfb = if cx.prop == "C11" {
+        *rng.pick(&[1u32, 1, 2, 3, 5, 64])
+    } else if via_builder {
+        *rng.pick(&[1u32, 1, 2, 3, 16, 64])
+    } else {
+        16
+    };
+    let spec = BuildSpec { var, kind, entry, via_builder, nfb, pats };
+    let vals: Vec<V> = mk_vals(rng, spec.pats.len(), entry);
+    let nh = rng.range(3, 6);
+    let hays: Vec<Rc<Vec<u8>>> = (0..nh)
+        .map(|_| Rc::new(gen_haystack(rng, var, &alpha, 14, &spec.pats)))
+        .collect();
+    let extra: Vec<u32> = alpha.extra.iter().copied().take(3).collect();
+    if cx.prop == "C08" && var == Var::C {
+        let twin = BuildSpec {
+            var: Var::B,
+            pats: spec.pats.iter().map(|p| pat_bytes(Var::C, p).iter().map(|&b| u32::from(b)).collect()).collect(),
+            ..spec.clone()
+        };
+        run_block(t, rng, cx, &twin, &vals, &hays, &[], false);
+    }
+    if cx.prop == "C11" {
+        let twin = BuildSpec { nfb: 16, ..spec.clone() };
+        run_block(t, rng, cx, &twin, &vals, &hays, &[], false);
+    }
+    let Some((h, pma)) = run_block(t, rng, cx, &spec, &vals, &hays, &extra, true) else { return };
+    let methods = methods_for(cx.prop, kind);
     if matches!(cx.prop, "C09" | "C06" | "C07") || rng.chance(1, 4) {
         let ntrail = rng.range(0, 5);
         let trail = gen_bytes(rng, ntrail);
@@ -240,16 +278,23 @@ fn dict_typed<V: Val>(t: &mut Tracer, rng: &mut Rng, cx: &Ctx, var: Var, kind: K
     let entry = if rng.chance(1, 2) { "new" } else { "with_values" };
     let spec = BuildSpec { var, kind, entry, via_builder: true, nfb, pats };
     let vals: Vec<V> = mk_vals(rng, spec.pats.len(), entry);
-    let (h, pma) = ev_build(t, &spec, &vals);
-    let Some(pma) = pma else { return };
-    ev_table(t, h, &pma, false, &[]);
-    let methods = methods_for(cx.prop, kind);
-    for _ in 0..3 {
-        let hay = Rc::new(gen_haystack(rng, var, &alpha, 120, &spec.pats));
-        for m in &methods {
-            ev_search(t, h, &pma, m, "slice", &hay, 0);
-            if *m != "lm" && cx.prop == "C12" {
-                ev_search(t, h, &pma, m, "iter", &hay, 0);
+    let hays: Vec<Rc<Vec<u8>>> =
+        (0..3).map(|_| Rc::new(gen_haystack(rng, var, &alpha, 120, &spec.pats))).collect();
+    if cx.prop == "C08" && var == Var::C {
+        let twin = BuildSpec {
+            var: Var::B,
+            pats: spec.pats.iter().map(|p| pat_bytes(Var::C, p).iter().map(|&b| u32::from(b)).collect()).collect(),
+            ..spec.clone()
+        };
+        run_block(t, rng, cx, &twin, &vals, &hays, &[], false);
+    }
+    let Some((h, pma)) = run_block(t, rng, cx, &spec, &vals, &hays, &[], false) else { return };
+    if cx.prop == "C09" {
+        let (h2, p2) = ev_roundtrip(t, h, &pma, &[1, 2, 3]);
+        ev_table(t, h2, &p2, false, &[]);
+        for hay in &hays {
+            for m in methods_for(cx.prop, kind) {
+                ev_search(t, h2, &p2, m, "slice", hay, 0);
             }
         }
     }
@@ -441,6 +486,12 @@ fn fam_threads(t: &mut Tracer, rng: &mut Rng, cx: &Ctx) {
         let Some(pma) = pma else { continue };
         let hays: Vec<Vec<u8>> = (0..6).map(|_| gen_haystack(rng, var, &alpha, 24, &spec.pats)).collect();
         let before = pma.serialize();
+        for hv in &hays {
+            let hay = Rc::new(hv.clone());
+            for m in kind.methods() {
+                ev_search(t, h, &pma, m, "slice", &hay, 0);
+            }
+        }
         let results: Vec<Vec<Value>> = std::thread::scope(|s| {
             let handles: Vec<_> = (0..nthreads)
                 .map(|ti| {
@@ -489,6 +540,12 @@ fn fam_lazy(t: &mut Tracer, rng: &mut Rng, _cx: &Ctx) {
     let Some(pma) = pma else { return };
     let hays: Vec<Rc<Vec<u8>>> =
         (0..3).map(|_| Rc::new(gen_haystack(rng, var, &alpha, 12, &spec.pats))).collect();
+    // reference: uninterrupted slice runs of every method on every haystack
+    for hay in &hays {
+        for m in ["ov", "find", "nosuf"] {
+            ev_search(t, h, &pma, m, "slice", hay, 0);
+        }
+    }
     let mut its = vec![];
     for (i, hay) in hays.iter().enumerate() {
         let m = ["ov", "find", "nosuf"][(i + rng.below(3)) % 3];
@@ -513,6 +570,41 @@ fn fam_lazy(t: &mut Tracer, rng: &mut Rng, _cx: &Ctx) {
         }
         its[k].3 += 1;
     }
+}
+
+/// Leftmost-first collections with shadowed patterns that contain characters / bytes occurring in
+/// no reportable pattern: the code mapper's domain is then larger than the set of edge labels, and
+/// the alphabet size straddles a power of two.
+fn fam_shadow(t: &mut Tracer, rng: &mut Rng, cx: &Ctx) {
+    let var = if rng.chance(3, 4) { Var::C } else { Var::B };
+    let k = *rng.pick(&[1usize, 2, 3, 4, 6, 7, 8, 14, 15, 16]);
+    let base_cp: u32 = if var == Var::C { *rng.pick(&[0x61u32, 0x3b1, 0x4e00, 0x1f600]) } else { 2 };
+    let a: Vec<u32> = (0..k as u32).map(|i| base_cp + i).collect();
+    let fresh_base: u32 = base_cp + 40;
+    let nbase = rng.range(1, 8);
+    let mut pats = gen_patterns(rng, &a, nbase, 3);
+    let mut extra_chars: Vec<u32> = vec![];
+    let nshadow = rng.range(1, 5);
+    for j in 0..nshadow {
+        let src = pats[rng.below(pats.len())].clone();
+        let mut e = src;
+        for q in 0..rng.range(1, 3) {
+            let c = fresh_base + (j * 3 + q) as u32;
+            e.push(c);
+            extra_chars.push(c);
+        }
+        if !pats.contains(&e) {
+            pats.push(e); // registered after its prefix: shadowed under leftmost-first
+        }
+    }
+    let kind = if cx.prop == "C04" || rng.chance(3, 4) { Kind::LF } else { *rng.pick(&kinds_for(cx.prop)) };
+    let nfb = *rng.pick(&[1u32, 2, 16]);
+    let spec = BuildSpec { var, kind, entry: "new", via_builder: true, nfb, pats };
+    let alpha = Alpha { pat: a.iter().copied().chain(extra_chars.iter().copied()).collect(), extra: vec![fresh_base + 39] };
+    let hays: Vec<Rc<Vec<u8>>> =
+        (0..4).map(|_| Rc::new(gen_haystack(rng, var, &alpha, 16, &spec.pats))).collect();
+    let ex: Vec<u32> = extra_chars.iter().copied().take(3).collect();
+    run_block::<u32>(t, rng, cx, &spec, &[], &hays, &ex, true);
 }
 
 /// C07: the UTF-8 decoder on branch boundaries and random scalars
@@ -550,13 +642,18 @@ fn fam_values(t: &mut Tracer, rng: &mut Rng, cx: &Ctx, i: u64) {
 /// (prop, tier, seed, i).
 pub fn family_of(prop: &str, i: u64) -> &'static str {
     match prop {
-        "C01" | "C02" | "C03" | "C04" | "C05" | "C08" | "C13" | "C15" => {
+        "C01" | "C02" | "C03" | "C05" | "C08" | "C13" => {
             if i % 12 == 11 {
                 "dict"
             } else {
                 "small"
             }
         }
+        "C04" | "C15" => match i % 12 {
+            11 => "dict",
+            2 | 6 | 9 => "shadow",
+            _ => "small",
+        },
         "C06" | "C09" => {
             if i % 16 == 15 {
                 "dict"
@@ -567,6 +664,7 @@ pub fn family_of(prop: &str, i: u64) -> &'static str {
         "C07" => match i % 12 {
             11 => "dict",
             3 | 7 => "decode",
+            1 | 5 | 9 => "shadow",
             _ => "small",
         },
         "C10" => {
@@ -621,6 +719,7 @@ pub fn run_scenario(t: &mut Tracer, prop: &str, thorough: bool, seed: u64, i: u6
         "threads" => fam_threads(t, &mut rng, &cx),
         "lazy" => fam_lazy(t, &mut rng, &cx),
         "decode" => fam_decode(t, &mut rng, &cx),
+        "shadow" => fam_shadow(t, &mut rng, &cx),
         "values" => fam_values(t, &mut rng, &cx, i),
         other => panic!("harness: unknown family {other}"),
     }));
